@@ -1,6 +1,6 @@
-import MuduoVerif.Model.TPool
+import MuduoVerif.Model.Monitor
 /-!
-# T1 tie for the monitors (C14, C15)
+# T1 tie for the blocking queues and the latch (C14; the ThreadPool part is Proofs/TPoolTie.lean)
 
 `Declared.*` is the statement skeleton each method is *modelled* with; the theorems `tie_*` show that
 the skeleton extracted from /repo's current sources (`Generated/Monitor.lean`) is exactly that one
@@ -8,7 +8,7 @@ the skeleton extracted from /repo's current sources (`Generated/Monitor.lean`) i
 position of every notification relative to the mutation, reads outside the lock).  The lemmas below
 them evaluate what the transition systems read off the skeletons (`waitOf`, `notifsOf`) and state the
 generated guards in the form the proofs use.  A source change that alters any of it breaks this file
-and with it every theorem of `Props/C14.lean` / `Props/C15.lean`.
+and with it every theorem of `Props/C14.lean`.
 -/
 namespace MuduoVerif.Monitor
 open MuduoVerif.MonitorSkel
@@ -29,18 +29,6 @@ def bbq_capacity : List Stmt := [.lock, .act "return capacity queue_", .ret, .un
 def latch_wait : List Stmt := [.lock, .whileWait "condition_", .unlock]
 def latch_countDown : List Stmt := [.lock, .act "-- count_", .ifBegin, .notifyAll "condition_", .ifEnd, .unlock]
 def latch_getCount : List Stmt := [.lock, .act "return count_", .ret, .unlock]
-def pool_stop : List Stmt :=
-  [.lock, .act "operator= running_", .notifyAll "notEmpty_", .notifyAll "notFull_", .unlock, .forBegin, .act "join", .forEnd]
-def pool_run : List Stmt :=
-  [.ifBegin, .act "operator()", .elseBegin, .lock, .whileWait "notFull_", .ifBegin, .ret, .ifEnd,
-   .act "push_back queue_", .notify "notEmpty_", .unlock, .ifEnd]
-def pool_take : List Stmt :=
-  [.lock, .whileWait "notEmpty_", .ifBegin, .act "operator= queue_", .act "pop_front queue_", .ifBegin,
-   .notify "notFull_", .ifEnd, .ifEnd, .ret, .unlock]
-def pool_isFull : List Stmt := [.act "assertLocked mutex_", .act "return maxQueueSize_ queue_", .ret]
-def pool_runInThread : List Stmt :=
-  [.ifBegin, .act "operator() threadInitCallback_", .ifEnd, .point, .whileBegin, .act "decl task take",
-   .ifBegin, .act "operator()", .ifEnd, .point, .whileEnd]
 end Declared
 
 theorem tie_bq_put_copy : bq_put_copy = Declared.bq_put := by decide
@@ -58,12 +46,6 @@ theorem tie_bbq_capacity : bbq_capacity = Declared.bbq_capacity := by decide
 theorem tie_latch_wait : latch_wait = Declared.latch_wait := by decide
 theorem tie_latch_countDown : latch_countDown = Declared.latch_countDown := by decide
 theorem tie_latch_getCount : latch_getCount = Declared.latch_getCount := by decide
-theorem tie_pool_stop : pool_stop = Declared.pool_stop := by decide
-theorem tie_pool_run : pool_run = Declared.pool_run := by decide
-theorem tie_pool_take : pool_take = Declared.pool_take := by decide
-theorem tie_pool_isFull : pool_isFull = Declared.pool_isFull := by decide
-theorem tie_pool_runInThread : pool_runInThread = Declared.pool_runInThread := by decide
-
 /-! ### what the models read off the skeletons -/
 
 theorem putF_bounded (v : Nat) : methF (putSkel true v) = ⟨some ⟨true, .notFull⟩, [⟨false, .notEmpty⟩]⟩ := by
@@ -76,12 +58,6 @@ theorem takeF_unbounded : methF (takeSkel false) = ⟨some ⟨true, .notEmpty⟩
   simp [takeSkel, tie_bq_take]; decide
 theorem latch_waitF : waitOf latch_wait = some ⟨true, .notEmpty⟩ := by rw [tie_latch_wait]; decide
 theorem latch_countDownF : notifsOf latch_countDown = [⟨true, .notEmpty⟩] := by rw [tie_latch_countDown]; decide
-theorem pool_runW : waitOf pool_run = some ⟨true, .notFull⟩ := by rw [tie_pool_run]; decide
-theorem pool_runN : notifsOf pool_run = [⟨false, .notEmpty⟩] := by rw [tie_pool_run]; decide
-theorem pool_takeW : waitOf pool_take = some ⟨true, .notEmpty⟩ := by rw [tie_pool_take]; decide
-theorem pool_takeN : notifsOf pool_take = [⟨false, .notFull⟩] := by rw [tie_pool_take]; decide
-theorem pool_stopN : notifsOf pool_stop = [⟨true, .notEmpty⟩, ⟨true, .notFull⟩] := by rw [tie_pool_stop]; decide
-
 /-! ### the generated guards, as the proofs use them -/
 
 theorem putGuard_some (c v n : Nat) : putGuard (some c) v n = decide (n = c) := by
@@ -91,7 +67,4 @@ theorem takeGuard_eq (cap : Option Nat) (n : Nat) : takeGuard cap n = decide (n 
   unfold takeGuard; cases cap <;> simp [bq_take_g1, bbq_take_g1]
 theorem latch_wait_guard (c : Int) : latch_wait_g1 c ↔ 0 < c := by unfold latch_wait_g1; omega
 theorem latch_countDown_guard (c : Int) : latch_countDown_g1 c ↔ c = 0 := by unfold latch_countDown_g1; omega
-theorem pool_isFull_iff (size maxq : Nat) : pool_isFull_ret size maxq ↔ 0 < maxq ∧ maxq ≤ size := by
-  unfold pool_isFull_ret; omega
-
 end MuduoVerif.Monitor
